@@ -18,6 +18,8 @@ var c01Frags = []string{
 	"\"", "'", "#{", ",", ":", "?", "=", "+", "%", "*", "/", "~", "<", "!", "not", "in", "is", "if", "endif",
 	"for", "endfor", "block", "endblock", "set", "verbatim", "endverbatim", "\r", "\t", "é", "\xff", "$",
 	"embed", "filter", "macro", "and", "\\", "\x00", "\ufeff",
+	// whole broken tags: a tag that starts well and ends in something the lexer rejects
+	"{% set q = 'u", "{% if ; %}", "{% import (", "{% do 1 $ %}",
 }
 
 var c01Core = []string{"{{", "{%", "{#", "a", "1", ".", "\"", "-", " ", "%}", "}}", "(", "\\", "'"}
